@@ -1,7 +1,10 @@
 import VelaVerif.Spec.Arena
+import VelaVerif.Spec.Decode
+import VelaVerif.Spec.Footprint
 import VelaVerif.Handlers.Util
 /-!
-`arena align=<a> scratch=<idx|-1> fast=<idx|-1> inputs=<i>,… outputs=<i>,… tensors=<size>:<offset>:<var>,… ops=<E|C>:<builtin>:<in>/<in>…:<out>/<out>…;…`
+`arena align=<a> scratch=<idx|-1> fast=<idx|-1> inputs=<i>,… outputs=<i>,… tensors=<size>:<offset>:<var>,… ops=<E|C>:<builtin>:<in>/<in>…:<out>/<out>…[:<w>.<w>.…];…`
+(optional fifth field of an Ethos-U operator: the words of its command stream, decoded here to find what it writes)
 answer: `conflicts=<n> <a>-<b>… | misaligned=<n> <idx>… | scratch=<n> <msgs> | required=<bytes>`
 -/
 namespace VelaVerif.Handlers.Arena
@@ -22,8 +25,20 @@ def parseTensor (s : String) : Option ATensor :=
     some { size := ← parseNat? sz, offset := if o < 0 then none else some o.toNat, isVariable := v == "1" }
   | _ => none
 
+/-- `(region, lo, hi)` of every write of a decoded stream: OFM hull of each kernel operation, DMA destination -/
+def streamWrites (words : List Nat) : Option (List (Nat × Nat × Nat)) :=
+  match Decode.decodeStream words with
+  | .error _ => none
+  | .ok st => some (st.ops.filterMap fun so =>
+      match so.op with
+      | .block b => (Footprint.hull (Footprint.fmPieces b.ofm 0 0 0)).map fun (lo, hi) => (b.ofm.region, lo, hi)
+      | .dma d => if d.dst.len = 0 then none else some (d.dst.region, d.dst.addr, d.dst.addr + d.dst.len))
+
 def parseOp (s : String) : Option AOp :=
   match s.splitOn ":" with
+  | [k, b, ins, outs, ws] => do
+    some { ethosu := k == "E", builtin := ← parseNat? b, inputs := ← parseNats (splitNE ins "/"), outputs := ← parseNats (splitNE outs "/"),
+           writes := streamWrites (← parseNats (splitNE ws ".")) }
   | [k, b, ins, outs] => do
     some { ethosu := k == "E", builtin := ← parseNat? b, inputs := ← parseNats (splitNE ins "/"), outputs := ← parseNats (splitNE outs "/") }
   | _ => none
